@@ -97,6 +97,7 @@ def scenarios(tier, fv):
     # overflows strftime's buffer): whatever the first call left locked blocks the second; then the main thread again
     sc("second-thread-after-failed-lookups", [b"output = file:@D@/out.log", b'message_format = "t %{ipaddr} %{datetime:' + b"%Y-%m-%d %H:%M:%S " * 6 + b'} %{datetime:%s} %{cmdline}"'],
        setup=["stdin\tpty"], quick=True, faults=False, calls=3, how=[None, "thread", None])
+    sc("second-thread-after-filter-drop", [b"output = file:@D@/out.log", b'filter_chain = "only_tty"'], quick=True, faults=False, calls=3, how=[None, "thread", None])
     # the caller arrives with a stale errno (EINTR from an interrupted pause()/read()); the configuration file is there and readable
     sc("caller-errno-eintr", [b"output = file:@D@/out.log", b'message_format = "e %{cmdline}"'], quick=True, faults=False, calls=2, how=["errno=4", "errno=11"])
     sc("sink-socket-absent", [b"output = socket:@D@/nothing.sock", b'message_format = "m %{cmdline}"'], world=("absent", "plain", "plain", "1"), quick=True, faults=False)
